@@ -201,6 +201,11 @@ def run_real(ops):
             except Exception as e:
                 raise Discard('raises:lift:' + type(e).__name__)
             ser = [canon.ser_expr(a) for a in affs]
+            for a in ser:
+                bad = refmodel.well_typed(a)
+                if bad:
+                    # guard (vi): ill-typed lifted semantics (C11's business) - nothing to compare against
+                    raise Discard('ill-typed-lift:%s' % i.m.name)
             rep = is_rep_string(i)
             t = {'affs': ser, 'rep': rep, 'name': i.m.name, 'prefix': list(i.prefix)}
             if rep:
@@ -310,10 +315,7 @@ def check_history(ops, vals, dense=True, compare_flags=False):
     except refmodel.Unsupported as u:
         return {'status': 'discard', 'reason': 'unsupported:' + str(u)[:40]}
     # registers
-    regnames = list(GPR)
-    if compare_flags or any(t.get('name', '')[:-1] in ('cmps', 'scas') for t in trace):
-        regnames += ['zf']
-    regnames += ['df']
+    regnames = list(GPR) + ['zf', 'nf', 'pf', 'of', 'cf', 'af', 'df']
     reg_exprs = {}
     for r in regnames:
         reg_exprs[r] = canon.ser_expr(m.pool[s.regs[r]])
@@ -456,7 +458,15 @@ def gen_move_line(rng):
         if rng.random() < 0.7:
             return 'pop %s' % rng.choice(DATA_REGS32)
         return 'pop %s' % mem_txt(rng, 32, 'ebx')
-    return 'lea %s, [%s%+d]' % (rng.choice(DATA_REGS32), rng.choice(['ebx', 'esp']), rng.randrange(-8, 16))
+    if k < 0.97:
+        return 'lea %s, [%s%+d]' % (rng.choice(DATA_REGS32), rng.choice(['ebx', 'esp']), rng.randrange(-8, 16))
+    return gen_misc_line(rng)
+
+MISC = ['pushfd', 'popfd', 'bswap eax', 'bswap ecx', 'cdq', 'cwde', 'cbw', 'cwd', 'lahf', 'sahf', 'sete al', 'setb cl', 'setne dh', 'setl dl',
+        'cmove eax, edx', 'cmovb ecx, eax', 'cmovne edx, ecx', 'push cx', 'push ax', 'pop dx', 'pop cx', 'xchg ax, cx', 'xchg al, ah', 'xchg dl, cl',
+        'cmc', 'clc', 'stc', 'nop', 'movzx cx, al', 'movsx dx, cl', 'push esp', 'enter 8, 0']
+def gen_misc_line(rng):
+    return rng.choice(MISC)
 
 ARITH = ['add', 'sub', 'xor', 'and', 'or', 'adc', 'sbb', 'cmp', 'test']
 def gen_arith_line(rng):
@@ -558,8 +568,9 @@ def gen_history(rng):
                     op['lo'] = rng.choice([0, 8] if w == 8 else [0, 16] if rng.random() < 0.3 else [0])
                 ops.append(op)
     elif mode == 'insn':
+        pm = rng.choice([0.0, 0.15, 0.4])
         for _ in range(n):
-            ops.append({'op': 'insn', 'line': gen_move_line(rng)})
+            ops.append({'op': 'insn', 'line': gen_misc_line(rng) if rng.random() < pm else gen_move_line(rng)})
     elif mode == 'string':
         ops += gen_string_program(rng, base)
     else:
